@@ -76,6 +76,67 @@ def build(module, variant):
     return exe
 
 
+def be_translator_sample(seed, count, rdir):
+    """C19's translator clause, as far as a little-endian host can exercise it: the translator built with WASM_ENDIAN forced to
+    big-endian must decode every f32/f64 immediate byte-reversed - consistently, however often an expression is decoded - so its
+    output equals the plain translator's output for the module whose float immediates are stored byte-reversed."""
+    xl_le, _ = build_translator_plain()
+    # sha1.c keeps the host byte order: its digest only orders the functions in the output, and a digest computed with the
+    # wrong byte order would merely shuffle them
+    xl_be, _ = build_translator_plain(extra_defs=("-DWASM_ENDIAN=1",), not_for=("sha1.c",))
+    key = sha(hash_files([os.path.join(VERIF, "tools", "wasmgen.py"), os.path.join(VERIF, "tools", "wasmenc.py")]), "becorpus", str(seed), str(count))
+    d, ok = cached_dir("gen", key)
+    if not ok:
+        shutil.rmtree(d, ignore_errors=True)
+        os.makedirs(d)
+        run_cmd([sys.executable, os.path.join(VERIF, "tools", "wasmgen.py"), "becorpus", d, str(seed), str(count)])
+        mark_done(d)
+    bad = []
+    n = 0
+    work = os.path.join(rdir, "be-sample")
+    for i in range(count):
+        name = "b%03d" % i
+        outs = []
+        for xl, mod, sub in ((xl_be, name + ".wasm", "be"), (xl_le, name + ".rev.wasm", "le")):
+            od = os.path.join(work, sub)
+            shutil.rmtree(od, ignore_errors=True)
+            os.makedirs(od)
+            shutil.copy(os.path.join(d, mod), os.path.join(od, "m.wasm"))      # the module name is derived from the file name
+            r = subprocess.run([xl, "m.wasm", "x.c"], cwd=od, stdout=subprocess.PIPE, stderr=subprocess.PIPE, timeout=120)
+            txt = ""
+            for fn in ("x.c", "x.h"):
+                pth = os.path.join(od, fn)
+                txt += open(pth, errors="replace").read() if os.path.exists(pth) else "<missing %s>" % fn
+            outs.append((r.returncode, txt))
+        n += 1
+        # the order of the function definitions follows the digest of the body bytes, which differ between the two inputs by
+        # construction: compare the definitions as a set and everything else in order
+        def canon(txt):
+            funcs, rest, cur = {}, [], None
+            lines_ = txt.splitlines()
+            for j, ln in enumerate(lines_):
+                if cur is None and re.match(r"^[A-Za-z0-9_]+ f\d+\(.*\) \{$", ln):
+                    cur = [ln]
+                elif cur is not None:
+                    cur.append(ln)
+                    if ln == "}" and (j + 1 == len(lines_) or lines_[j + 1] == ""):     # a definition is followed by an empty line
+                        funcs[cur[0]] = "\n".join(cur); cur = None
+                else:
+                    rest.append(ln)
+            return "\n".join(rest + [funcs[k] for k in sorted(funcs)])
+        outs = [(rc, canon(t)) for rc, t in outs]
+        if outs[0] != outs[1]:
+            la, lb = outs[0][1].splitlines(), outs[1][1].splitlines()
+            k = next((j for j in range(min(len(la), len(lb))) if la[j] != lb[j]), min(len(la), len(lb)))
+            where = "exit-status" if outs[0][0] != outs[1][0] else ("global-initialiser" if k < len(la) and "i->g" in la[k] else "function-body")
+            with open(os.path.join(d, name + ".wasm"), "rb") as f:
+                hx = f.read().hex()
+            bad.append({"class": where, "module": name + ".wasm", "count": count, "hex": hx,
+                        "detail": "module %s: forced-BE translator line %d '%s' vs reversed-immediate reference '%s'" % (name, k + 1, (la[k] if k < len(la) else "<eof>")[:120], (lb[k] if k < len(lb) else "<eof>")[:120])})
+    shutil.rmtree(work, ignore_errors=True)
+    return n, bad
+
+
 COMPONENTS = {
     "real": ["C generated by the current /repo translator from tools/wasmgen.py modules", "w2c2/w2c2_base.h", "futex/futex.c", "futex/list.c", "futex/map.c"],
     "stub": ["pthread mutex/cond/thread (simcore simulated objects)", "clock_gettime/clock_getres/time (simulated clock)",
@@ -95,7 +156,7 @@ ASSUME = {
     "C16": ["on the LE build each atomic builtin is one indivisible step as on hardware; the builtin's memory-order argument drives an x86-TSO store-buffer model: a store weaker than seq_cst is delayed in its task's FIFO buffer until the seeded scheduler drains it or the task executes a fence, read-modify-write, seq_cst store or lock operation, loads see the own buffer; load-load/load-store reordering and non-multi-copy-atomic machines are not modelled", "when a store was delayed the total order only has to respect program order (sequential consistency), otherwise real-time order too (linearizability); checked per 8-byte word and jointly over all 2-4 touched words", "histories <= 28 ops, linearizability search budget 1e6 states (over-budget histories are counted, never flagged)"],
     "C17": ["simulated pthread mutex/cond semantics follow POSIX (any waiter may be chosen by signal, spurious wake-ups allowed)", "CLOCK_REALTIME does not jump during a wait"],
     "C05": ["only in-bounds accesses are generated (w2c2 does not bounds-check)", "one generated module ('mem': min 1, max 8 pages, 3 passive segments), built four ways: instrumented clang -O1 (arrays and gnu-ld data embedding), plain gcc -O2, plain clang -O3"],
-    "C19": ["big-endian behaviour is exercised by forcing WASM_ENDIAN on a little-endian host; the translator-on-BE-host half of the property is not reachable here"],
+    "C19": ["big-endian behaviour is exercised by forcing WASM_ENDIAN on a little-endian host", "the translator-on-BE-host clause is only sampled without schedules or faults (auxiliary): forced-BE reader vs. plain reader on byte-reversed float immediates, function definitions compared as a set"],
 }
 
 
@@ -217,6 +278,31 @@ def check(prop, tier, seed, replay=None):
 
     new, known_seen, internal2, lines = handle_violations(prop, by_sig, replay_cmd, make_replay_for, classify)
     internal += internal2
+    aux = {}
+    if prop == "C19":
+        n_mod, bad = be_translator_sample(seed, 24 if tier == "quick" else 300, rdir)
+        aux = {"forced_big_endian_translator_modules_compared": n_mod, "mismatches": len(bad)}
+        known = load_known()
+        for b in bad[:3]:
+            sig = "C19/translator/forced-big-endian-reader:" + b["class"]
+            by_sig.setdefault(sig, []).append(b)
+            k = match_known(prop, sig, known)
+            if k:
+                known_seen.append({"signature": sig, "what": k.get("what", ""), "runs": 1})
+                lines.append("KNOWN-FINDING: property=%s %s [%s]" % (prop, k.get("what", ""), sig))
+                continue
+            if any(l.endswith(safe_name(sig) + ".replay") for l in lines):
+                continue
+            os.makedirs(os.path.join(REPLAYS, prop), exist_ok=True)
+            out = os.path.join(REPLAYS, prop, safe_name(sig) + ".replay")
+            with open(out, "w") as f:
+                f.write("# auxiliary, schedule-free check of C19's translator clause: translator built with -DWASM_ENDIAN=1 (big-endian reader on this little-endian host)\n"
+                        "# translates MODULE; the plain translator translates the same module with every f32/f64 immediate byte-reversed; both outputs must be identical.\n"
+                        "# regenerate: python3 /verif/tools/wasmgen.py becorpus <dir> %d %d ; module %s\n# first difference: %s\nmodule_hex %s\n" % (seed, b["count"], b["module"], b["detail"], b["hex"]))
+            lines.append("VIOLATION property=%s replay=%s" % (prop, out))
+            lines.append("  signature: %s" % sig)
+            lines.append("  detail: %s" % b["detail"][:800])
+            new += 1
 
     # ---- determinism canary: re-run a sample of indices in fresh processes
     canary_bad = 0
@@ -270,6 +356,7 @@ def check(prop, tier, seed, replay=None):
         "build_seconds": round(build_s, 1),
         "internal_errors": internal,
         "exhaustive": False,
+        "auxiliary": aux,
     }
     write_evidence(prop, tier, seed, "exploration", cov, ASSUME[prop], wall, new)
     for l in lines:
